@@ -343,7 +343,7 @@ func (c20Prop) Gen(t *Tape, ph *PhaseCfg) Case {
 		}
 	}
 	c.Strategy = t.Draw(numStrats)
-	c.Fresh = t.Draw(400) == 0
+	c.Fresh = t.Draw(100) == 0
 	return c
 }
 
